@@ -39,7 +39,7 @@ class SeqBoom(Exception):
 class OpRec:
     __slots__ = ("unit", "op", "status", "result", "exc", "gen", "gen_state",
                  "responses", "t_start", "t_end", "ev_start", "ev_end",
-                 "progress", "cancel_requested")
+                 "progress", "cancel_requested", "finished")
 
     def __init__(self, unit, op):
         self.unit = unit
@@ -54,6 +54,7 @@ class OpRec:
         self.ev_start = self.ev_end = None
         self.progress = 0
         self.cancel_requested = False
+        self.finished = False
 
 
 class RunRecord:
@@ -95,7 +96,7 @@ def op_cmd_specs(op):
     k = op["kind"]
     if k == "send":
         return [op["cmd"]]
-    if k == "locked":
+    if k in ("locked", "parallel"):
         return list(op["cmds"])
     if k == "seq":
         return [it[1] for it in op["items"] if it[0] == "cmd"]
@@ -133,6 +134,17 @@ def make_world(plan, units=None):
     return world, dev, bus, line
 
 
+def harness_seq_bad_close(rec, items, raise_at):
+    """Like harness_seq, but yields a clean-up command from a finally clause
+    (legal for a finished run, a RuntimeError when the generator is closed
+    early - which must not keep the driver from releasing its lock)."""
+    try:
+        return (yield from harness_seq(rec, items, raise_at))
+    finally:
+        if not rec.finished:
+            yield cmds.mk_cmd([16, 0xA100, 0])       # TERMINATE as clean-up
+
+
 def harness_seq(rec, items, raise_at):
     n = 0
     for i, it in enumerate(items):
@@ -148,6 +160,7 @@ def harness_seq(rec, items, raise_at):
             yield seqmod.progress(message="p%d" % i)
     if raise_at is not None and raise_at >= len(items):
         raise SeqBoom()
+    rec.finished = True
     return "ret:" + rec.unit
 
 
@@ -167,8 +180,15 @@ async def _do_op(world, driver, rec, hooks):
                 out.append(await driver.send(cmds.mk_cmd(s), in_transaction=True))
                 rec.responses.append(out[-1])
         return out
+    if k == "parallel":
+        async with driver.transaction_lock:
+            out = await asyncio.gather(*[driver.send(cmds.mk_cmd(s), in_transaction=True)
+                                         for s in op["cmds"]])
+            rec.responses.extend(out)
+        return list(out)
     if k == "seq":
-        gen = harness_seq(rec, op["items"], op.get("raise_at"))
+        gen = (harness_seq_bad_close if op.get("bad_close") else harness_seq)(
+            rec, op["items"], op.get("raise_at"))
         rec.gen = gen
 
         def prog(p):
